@@ -356,7 +356,7 @@ def pack (free : List Nat) (all : List K) (dflt : K) : List K := free.map (fun i
 
 /-- `unpackedFreeQ[freeQX[i]] = packedFreeQ[i]`; other slots keep what `base` holds -/
 def unpack (free : List Nat) (packed : List K) (base : List K) : List K :=
-  (free.zip packed).foldl (fun b (ip : Nat × K) => b.set (ip.1 + 1) ip.2) base
+  (free.zip packed).foldl (fun b (ip : Nat × K) => b.set ip.1 ip.2) base
 
 end Pack
 
@@ -409,7 +409,7 @@ def minNormWeighted (n : Nat) (A : List (List K)) (tp winv b : List K) : List K 
   let A' := List.zipWith (fun r t => List.zipWith (fun a wi => t * a * wi) r winv) A tp
   let M := gramL A'
   let lam := solveL M (List.zipWith (· * ·) tp b)
-  (List.zipWith (· * ·) winv (mulVecTL n A' lam), lam, M)
+  ((mulVecTL n A' lam), lam, M)
 
 /-- the same step restricted to the free columns (`calcWeightedPqrTranspose` packs rows of `~Pqw`), zero in the
 prescribed slots (`unpackFreeQ` into a zero vector).  Returns `(dq, λ, M)`. -/
